@@ -342,6 +342,10 @@ func fetchRepositoryIndex(ctx context.Context, u string, etag string, opts *inde
 func parseRepositoryIndex(ctx context.Context, u string, keys map[string][]byte, arch string, b []byte, opts *indexOpts) (*APKIndex, error) { //nolint:gocyclo
 	_, span := otel.Tracer("go-apk").Start(ctx, "parseRepositoryIndex")
 	defer span.End()
+	// what gets parsed: the whole archive when signatures are not checked,
+	// otherwise only the bytes the verified signature covers
+	parsed := b
+	var verifiedSignature []byte
 	// validate the signature
 	if shouldCheckSignatureForIndex(u, arch, opts) {
 		if len(keys) == 0 {
@@ -436,6 +440,7 @@ func parseRepositoryIndex(ctx context.Context, u string, keys map[string][]byte,
 			}
 			if err := sign.RSAVerifyDigest(indexDigest[sig.DigestAlgorithm], sig.DigestAlgorithm, sig.Signature, keys[sig.KeyID]); err == nil {
 				verified = true
+				verifiedSignature = sig.Signature
 				break
 			} else {
 				clog.FromContext(ctx).Warnf("failed to verify signature for keyfile %s: %v", sig.KeyID, err)
@@ -444,11 +449,19 @@ func parseRepositoryIndex(ctx context.Context, u string, keys map[string][]byte,
 		if !verified {
 			return nil, errors.New("signature verification failed for repository index, for all provided keys")
 		}
+		// Parse exactly the signed bytes. Re-reading the signature stream together
+		// with them as one tar stream lets a meta-header or an end-of-archive
+		// marker placed at the end of the (unsigned) signature stream rename,
+		// resize or hide the first signed entry.
+		parsed = indexData
 	}
 	// with a valid signature, convert it to an ApkIndex
-	index, err := IndexFromArchive(io.NopCloser(bytes.NewReader(b)))
+	index, err := IndexFromArchive(io.NopCloser(bytes.NewReader(parsed)))
 	if err != nil {
 		return nil, fmt.Errorf("unable to read convert repository index bytes to index struct: %w", err)
+	}
+	if index.Signature == nil {
+		index.Signature = verifiedSignature
 	}
 
 	return index, err
